@@ -11,6 +11,7 @@ use varpulis_runtime::event::Event;
 
 pub mod engine;
 pub mod seq;
+pub mod prog;
 pub mod expr;
 pub mod vplsrc;
 
